@@ -215,6 +215,38 @@ def h_summary(k: int) -> bool:
     return why is None
 
 
+def _squareform(m):
+    """scipy.spatial.distance.squareform for plain lists, both directions: a square matrix becomes the condensed
+    vector (upper triangle, row-major); a condensed vector becomes the symmetric matrix with a zero diagonal"""
+    m = list(m)
+    if m and isinstance(m[0], (list, tuple)):
+        n = len(m)
+        return [m[i][j] for i in range(n) for j in range(i + 1, n)]
+    n = 1
+    while n * (n - 1) // 2 < len(m):
+        n += 1
+    if n * (n - 1) // 2 != len(m):
+        raise ValueError("not a condensed distance vector")
+    out = [[0.0] * n for _ in range(n)]
+    k = 0
+    for i in range(n):
+        for j in range(i + 1, n):
+            out[i][j] = out[j][i] = m[k]
+            k += 1
+    return out
+
+
+def _linkage_entry(m, n, i, j):
+    """the distance of observations i, j in what was handed to hierarchy.linkage (condensed vector or square matrix)"""
+    m = list(m)
+    if m and isinstance(m[0], (list, tuple)):
+        return m[i][j]
+    if i == j:
+        return 0.0
+    a, b = min(i, j), max(i, j)
+    return m[n * a - a * (a + 1) // 2 + (b - a - 1)]
+
+
 def h_cluster(k: int, so: int) -> bool:
     """
     pre: 0 <= k < 24 and 0 <= so < 24
@@ -285,7 +317,7 @@ def h_cluster(k: int, so: int) -> bool:
             scc.hierarchy = hier
             scs = types.ModuleType("scipy.spatial")
             scd = types.ModuleType("scipy.spatial.distance")
-            scd.squareform = lambda m: [list(r) for r in m]
+            scd.squareform = _squareform
             scs.distance = scd
             mods = {"matplotlib": mpl, "matplotlib.pyplot": plt, "scipy": sc, "scipy.cluster": scc, "scipy.cluster.hierarchy": hier,
                     "scipy.spatial": scs, "scipy.spatial.distance": scd}
@@ -333,7 +365,7 @@ def h_cluster(k: int, so: int) -> bool:
                 for i, a in enumerate(names):
                     for j, b in enumerate(names):
                         d = report.distance(sm, a, b)
-                        if got["rows"][i][1 + j] != "%.2f" % d or got["linkage"][i][j] != d:
+                        if got["rows"][i][1 + j] != "%.2f" % d or _linkage_entry(got["linkage"], len(names), i, j) != d:
                             why = "cell (%s,%s) is not distance(%s,%s)" % (a, b, a, b)
         except Exception as e:
             why = "exception " + repr(e)
